@@ -121,7 +121,7 @@ func checkC04(w *World) {
 	docRule(P, "R04.2", "D", "string-to-number: every strconv.ParseFloat in package exec outside the handler of the numeric-literal production (whose token admits only digits and '.') executes only under a true result of a package-local validation function applied to the same string; unguarded, ParseFloat accepts exponents, hex, Inf, NaN, '+', '_' and rejects surrounding whitespace, so it cannot implement the XPath Number rule. String.Number, NodeSet.Number and the node-set arms of comparisons all reach the guarded site.")
 	numHandler := map[*ssa.Function]bool{}
 	if h := f.Handlers["Number"]; h != nil {
-		for _, fn := range w.handlerClosure(h.Fn) {
+		for _, fn := range w.handlerClosureH(h) {
 			numHandler[fn] = true
 		}
 	}
@@ -817,7 +817,34 @@ func (w *World) firstNodeRule(P string, f *Facts, r *Roles) {
 					}
 					recv := c.Call.Value
 					ok2, why := false, "the node whose name is taken is "+describe(recv)
-					if ac, isCall := recv.(*ssa.Call); isCall {
+					if p, isParam := recv.(*ssa.Parameter); isParam {
+						// a helper that is handed the node: what every caller passes
+						idx := -1
+						for i, x := range g.Params {
+							if x == p {
+								idx = i
+							}
+						}
+						sites := w.callersOf(g)
+						all := len(sites) > 0 && idx >= 0
+						for _, site := range sites {
+							if idx < 0 || idx >= len(site.Call.Args) {
+								all = false
+								continue
+							}
+							ac, isCall := site.Call.Args[idx].(*ssa.Call)
+							if !isCall {
+								all = false
+								continue
+							}
+							if okc, _ := w.isMinPosHelper(staticCallee(ac), r); !okc {
+								all = false
+							}
+						}
+						if all {
+							ok2, why = true, "every caller passes the result of the minimum-Pos() search"
+						}
+					} else if ac, isCall := recv.(*ssa.Call); isCall {
 						ok2, why = w.isMinPosHelper(staticCallee(ac), r)
 					} else if ld, isLd := recv.(*ssa.UnOp); isLd {
 						if ia, isIA := ld.X.(*ssa.IndexAddr); isIA {
